@@ -659,6 +659,13 @@ func (w *World) oracleSched() {
 	if len(s.Violations()) > 0 {
 		return
 	}
+	// Close waits for attempts in flight and stops everything else: nothing
+	// of a closed queue reaches the target afterwards
+	for _, tx := range w.tgt.Records() {
+		if cs, ok := w.closeStep[tx.Inc]; ok && tx.Step > cs {
+			s.Violate("C12/attempt-after-close", "tx%d (%s) was started by incarnation %d at step %d, after that queue's Close had returned (step %d)", tx.N, actors.BaseID(tx.MsgID), tx.Inc, tx.Step, cs)
+		}
+	}
 	// not before its scheduled time
 	for _, m := range w.sc.Msgs {
 		txs := w.txsOf(m)
